@@ -269,6 +269,53 @@ def run(chk):
                 chk.violation('Position:connection-context', 'a block-placement packet carrying the context of protocol %d, written through a '
                               'connection at protocol %d, does not contain the position (%d, %d, %d) packed for protocol %d (%s): wrote %s'
                               % (va, vb, x, y, z, vb, word.hex(), data[:24].hex()), {'from': va, 'to': vb})
+    # ---- "the connection's context" is one object for the life of the Connection: an application that took it before
+    #      connect() (to pack positions for its own purposes) sees the negotiated protocol in it once the login has begun
+    from ..session import Run, TracingScript
+    from ..profile import Profile
+    from .. import peer as PP
+    for (v_srv, v_other) in ((404, 757), (757, 404), (340, 498), (477, 47)):
+        if v_srv not in sup or v_other not in sup:
+            continue
+        prof = Profile(v_srv)
+        run_ = Run(seed=chk.seed + v_srv)
+
+        def factory(idx, sess, prof=prof, run_=run_, v_srv=v_srv):
+            sc = TracingScript(run_, prof, [])
+            if idx == 0:
+                sc.steps = [('expect', 2), ('send', prof.status_response(PP.status_json(protocol=v_srv, name='s')))]
+            else:
+                sc.steps = [('expect', 2), ('send', prof.login_success(bytes(range(16)), 'verif')), ('call', lambda s_: setattr(s_, 'state', 'play'))]
+            return sc
+        run_.serve(factory)
+        got = {}
+
+        def scenario(run_, v_srv=v_srv, v_other=v_other, got=got):
+            c = run_.make_connection(allowed_versions={v_srv, v_other})
+            ctx = c.context                     # taken before the version is known
+            c.connect()
+            run_.settle()
+            for (x, y, z) in ((1200, 65, -420), (-33554432, -2048, 33554431)):
+                sink = Sink()
+                T.Position.send_with_context(T.Position(x=x, y=y, z=z), sink, ctx)
+                got[(x, y, z)] = sink.value()
+            got['same'] = c.context is ctx
+            c.disconnect()
+        run_.go(scenario)
+        kn = list(mc.KNOWN_PROTOCOL_VERSIONS)
+        for xyz, data in got.items():
+            if xyz == 'same':
+                continue
+            chk.evaluations += 1
+            chk.case(('context-taken-before-connect', v_srv, v_other) + xyz)
+            word = Position_word(None, xyz[0], xyz[1], xyz[2], kn.index(v_srv) >= kn.index(443))
+            if data != word:
+                chk.violation('Position:context-taken-before-connect', 'the context taken from a Connection before connect() (allowed {%d, %d}, server at '
+                              '%d) packs %r as %s after the login; the connection speaks %d, where it is %s (the object is %s the connection\'s context)'
+                              % (v_srv, v_other, v_srv, xyz, data.hex(), v_srv, word.hex(), 'still' if got.get('same') else 'no longer'),
+                              {'server': v_srv, 'other': v_other})
+        if len(got) < 3:
+            chk.violation('Position:context-taken-before-connect', 'the negotiated login at %d did not complete (%s)' % (v_srv, run_.outcome), {'server': v_srv})
     chk.sample({'layout_vector_excerpt': [v for v in vec if 400 <= v['p'] <= 480][:12]})
     chk.extra['rows'] = {k: len(v) for k, v in by_kind.items()}
     chk.extra['random_observations'] = len(obs)
